@@ -511,12 +511,16 @@ func (l *loopState) notifySteps() { //nolint:gocognit
 				l.logger.Debugf("Output node %s failed", nodeID)
 				// Check to see if there are any remaining output nodes, and if there aren't,
 				// cancel the context.
-				delete(l.waitingOutputs, nodeID)
-				if len(l.waitingOutputs) == 0 && !l.outputDone {
-					l.recentErrors <- &ErrNoMorePossibleOutputs{
-						l.dag,
+				// A failed output node is reported ready again for every further dependency
+				// of it that fails; only the first time counts.
+				if _, stillWaiting := l.waitingOutputs[nodeID]; stillWaiting {
+					delete(l.waitingOutputs, nodeID)
+					if len(l.waitingOutputs) == 0 && !l.outputDone {
+						l.recentErrors <- &ErrNoMorePossibleOutputs{
+							l.dag,
+						}
+						l.cancel()
 					}
-					l.cancel()
 				}
 			} else {
 				l.logger.Debugf("Disregarding failed node %s with type %s", nodeID, nodeItem.Kind)
